@@ -7,6 +7,7 @@ import WorkflowModel.Model.Adapters.RefStream
 import WorkflowModel.Model.Adapters.RefTimeouts
 import WorkflowModel.Model.Adapters.SqlStore
 import WorkflowModel.Model.Launch
+import WorkflowModel.Model.Adapters.RefRoles
 /-! Line-protocol driver for the correspondence check (T3). One command per input line, one answer per
 output line. Core-only imports, so it links as `lean_exe wfdriver`. Unknown commands answer `bad-op`
 (never a default). -/
@@ -310,10 +311,28 @@ def step (args : List String) : Option String :=
 
 end LaunchDrv
 
+namespace RoDrv
+open WorkflowModel.RefRoles
+
+def step (s : RState) (args : List String) : Option (RState × String) :=
+  match args with
+  | ["reset"] => some ({}, "ok")
+  | ["req", id, role] => do some (s.request (← id.toNat?) (← role.toNat?), "ok")
+  | ["grant", id] => do
+    let (s', ok) := s.grant (← id.toNat?)
+    some (s', if ok then "ok" else "illegal")
+  | ["end", id] => do some (s.finish (← id.toNat?), "ok")
+  | ["holders"] => some (s, if s.holders.isEmpty then "-" else ",".intercalate (s.holders.map (fun h => s!"{h.1}:{h.2}")))
+  | ["free", role] => do some (s, if s.held (← role.toNat?) then "held" else "free")
+  | _ => none
+
+end RoDrv
+
 structure Aux where
   rs : WorkflowModel.RefStore.Store := {}
   st : WorkflowModel.RefStream.Stream := {}
   ts : WorkflowModel.RefTimeouts.TStore := {}
+  ro : WorkflowModel.RefRoles.RState := {}
 
 partial def loop (h : IO.FS.Stream) (out : IO.FS.Stream) (cfg : WorkflowModel.Engine.Cfg) (sys : WorkflowModel.Engine.Sys)
     (rs : Aux := {}) : IO Unit := do
@@ -338,6 +357,10 @@ partial def loop (h : IO.FS.Stream) (out : IO.FS.Stream) (cfg : WorkflowModel.En
   | "st" :: rest =>
     match StDrv.step rs.st rest with
     | some (st', ans) => out.putStrLn ans; out.flush; loop h out cfg sys { rs with st := st' }
+    | none => out.putStrLn "bad-op"; out.flush; loop h out cfg sys rs
+  | "ro" :: rest =>
+    match RoDrv.step rs.ro rest with
+    | some (ro', ans) => out.putStrLn ans; out.flush; loop h out cfg sys { rs with ro := ro' }
     | none => out.putStrLn "bad-op"; out.flush; loop h out cfg sys rs
   | "launch" :: rest =>
     match LaunchDrv.step rest with
